@@ -17,6 +17,7 @@ CT = {
     'si': ('signed int', 32, True),    # explicitly signed (type.signed == 2 inside the compiler)
     'ui': ('unsigned int', 32, False),
     'l': ('long', 64, True),
+    'sl': ('signed long', 64, True),   # explicitly signed above int rank: keeps type.signed == 2 through promotion
     'ul': ('unsigned long', 64, False),
     'll': ('long long', 64, True),
     'ull': ('unsigned long long', 64, False),
@@ -89,6 +90,9 @@ def plist(spec, nz=0, excl=()):
       ('bnd1', t, lvl)        -> (a,) for a in boundary(t)
       ('exh1', t)             -> (a,) for every a of t (8/16-bit only)
       ('rnd1', t, seed, n)    -> n random 1-tuples
+      ('shf', t1, t2, lvl)    -> (a, k) for boundary a of t1 and every shift count k in [-2, 72] that t2 can hold
+      ('rndk', t, k, seed, n) -> n random k-tuples of t with magnitudes around 2**(bits/k') so that nested products
+                                 sometimes fit and sometimes do not
     nz=1 drops pairs whose last element is 0; excl drops the listed tuples."""
     kind = spec[0]
     out = []
@@ -132,6 +136,38 @@ def plist(spec, nz=0, excl=()):
         _, t, seed, n = spec
         rng = random.Random('C03:1:%s:%s' % (t, seed))
         out = [(_rand_val(rng, t),) for _i in range(n)]
+    elif kind == 'shf':
+        _, t1, t2, lvl = spec
+        lo2, hi2 = bounds(t2)
+        ks = [k for k in range(-2, 73) if lo2 <= k <= hi2]
+        out = [(a, k) for a in boundary(t1, lvl) for k in ks]
+    elif kind == 'rndk':
+        _, t, k, seed, n = spec
+        rng = random.Random('C03:k:%s:%s:%s' % (t, k, seed))
+        lo, hi = bounds(t)
+        _, bits, signed = CT[t]
+        for _i in range(n):
+            tup = []
+            for _j in range(k):
+                m = rng.random()
+                if m < 0.25:
+                    v = rng.randint(-9, 9)
+                elif m < 0.55:
+                    v = rng.getrandbits(rng.randint(1, bits // 2 + 1))
+                    if rng.random() < 0.5:
+                        v = -v
+                elif m < 0.75:
+                    v = rng.getrandbits(rng.randint(bits // 2, bits))
+                    if rng.random() < 0.5:
+                        v = -v
+                elif m < 0.9:
+                    v = rng.choice(boundary(t))
+                else:
+                    v = rng.choice((0, 1, -1, 2))
+                if not signed:
+                    v = abs(v)
+                tup.append(max(lo, min(hi, v)))
+            out.append(tuple(tup))
     else:
         raise ValueError(spec)
     if nz:
